@@ -37,12 +37,12 @@ impl MemcacheBinaryConnection {
                             request.header.body_length,
                             self.buffer.len()
                         );
-                        let skip = (request.header.body_length) - (self.buffer.len() as u32);
-                        if skip >= self.buffer.len() as u32 {
-                            self.buffer.clear();
-                        } else {
-                            self.buffer = self.buffer.split_off(skip as usize);
-                        }
+                        // drop the part of the body that is already buffered,
+                        // then read and discard the rest of it from the socket
+                        let buffered =
+                            cmp::min(request.header.body_length, self.buffer.len() as u32);
+                        let _ = self.buffer.split_to(buffered as usize);
+                        let skip = request.header.body_length - buffered;
                         self.skip_bytes(skip).await?;
                         return Ok(Some(BinaryRequest::ItemTooLarge(request)));
                     }
